@@ -472,6 +472,17 @@ impl VxToString for char { open spec fn dview(&self) -> Seq<char> { seq![*self] 
 #[verifier::external_body] pub fn cat7(p0: &str, p1: &str, p2: &str, p3: &str, p4: &str, p5: &str, p6: &str) -> (r: String) ensures r@ == p0@ + p1@ + p2@ + p3@ + p4@ + p5@ + p6@ { [p0, p1, p2, p3, p4, p5, p6].concat() }
 #[verifier::external_body] pub fn cat8(p0: &str, p1: &str, p2: &str, p3: &str, p4: &str, p5: &str, p6: &str, p7: &str) -> (r: String) ensures r@ == p0@ + p1@ + p2@ + p3@ + p4@ + p5@ + p6@ + p7@ { [p0, p1, p2, p3, p4, p5, p6, p7].concat() }
 
+// ---------------------------------------------------------------- reordering operations: only the length is specified
+// (a contract that depends on element order cannot be proved across them, which is the intended, conservative effect)
+pub assume_specification<T, F: FnMut(&T, &T) -> core::cmp::Ordering>[ <[T]>::sort_by ](v: &mut [T], f: F)
+    ensures final(v)@.len() == old(v)@.len();
+pub assume_specification<T, K: Ord, F: FnMut(&T) -> K>[ <[T]>::sort_by_key ](v: &mut [T], f: F)
+    ensures final(v)@.len() == old(v)@.len();
+pub assume_specification<T: Ord>[ <[T]>::sort ](v: &mut [T])
+    ensures final(v)@.len() == old(v)@.len();
+pub assume_specification<T>[ <[T]>::reverse ](v: &mut [T])
+    ensures final(v)@.len() == old(v)@.len();
+
 // ---------------------------------------------------------------- HashSet<String> as a set of char sequences
 pub trait VxStrSet {
     spec fn keys(&self) -> Set<Seq<char>>;
